@@ -418,6 +418,19 @@ func c13ExprRun(t failer, c *c13ExprCase) {
 		evs[i] = ev
 	}
 	d := c.Datum.Interface()
+	// texts that are NOT in the language today (a byte order mark, other Unicode blanks, a NUL, a trailing semicolon
+	// around a valid expression): whether they are accepted is not this property's business - but whatever evaluator
+	// is created from a text reports that text
+	for _, tx := range c.Texts[:1] {
+		for _, deco := range [][2]string{{"\ufeff", ""}, {"", "\ufeff"}, {"\u00a0", ""}, {"", "\u3000"}, {"", "\x00"}, {"", ";"}, {"\u2028", "\u2029"}, {"\xef\xbb\xbf ", "\n"}} {
+			text := deco[0] + string(tx) + deco[1]
+			if ev, err := bexpr.CreateEvaluator(text); err == nil && ev != nil {
+				if got := ev.Expression(); got != text {
+					violation(t, "C13", "TestC13_Expression", c, "an evaluator was created from %s but Expression() returns %s", strconv.QuoteToASCII(text), strconv.QuoteToASCII(got))
+				}
+			}
+		}
+	}
 	for round := 0; round < 2; round++ {
 		for i, ev := range evs {
 			if got := ev.Expression(); got != string(c.Texts[i]) {
